@@ -278,7 +278,35 @@ class Mixed(Harness):
         ctx.observe(kinds, c, [e[0] for e in rec.log])
 
 
-FREE, STRUCTURED, BOUND, MIXED = Free(), Structured(), Bound(), Mixed()
+class LongFrames(Harness):
+    """(e) valid DATA frames with long data fields (up to 200 bytes), alone or followed by a second frame, whole or cut."""
+
+    name = "c02_long"
+    must_reach = ("up", "two-up")
+    functions = Free.functions
+
+    def run(self, ctx, lengths=(1, 127, 128, 129, 200)):
+        ash, p, rec = mk(ctx, 0)
+        n = lengths[ctx.choice("len", len(lengths))]
+        pl = [(3 * i + n) & 0xFF for i in range(n)]
+        s = R.wire(R.data_frame(0, 0, 0, pl))
+        two = ctx.flag("second_frame")
+        if two:
+            s = s + R.wire(R.data_frame(1, 0, 0, [0x77]))
+        c = ctx.choice("cut", 4)
+        places = (None, 1, len(s) // 2, len(s) - 1)
+        chunks = [s] if c == 0 else [s[:places[c]], s[places[c]:]]
+        ref = R.RefReceiver(0)
+        ref.feed(s)
+        feed_impl(ctx, p, chunks)
+        compare(ctx, rec, ref, what="%d-byte DATA frame%s, cut %d: " % (n, " + second frame" if two else "", c))
+        if two:
+            ctx.label("two-up")
+        ctx.check(p._rx_seq == ref.rx_seq, "expected frame number differs from the reference decoder after the stream", "rx-seq")
+        ctx.observe(n, two, c, [e[0] for e in rec.log])
+
+
+FREE, STRUCTURED, BOUND, MIXED, LONGFRAMES = Free(), Structured(), Bound(), Mixed(), LongFrames()
 
 
 def main(tier):
@@ -297,6 +325,7 @@ def main(tier):
         c.run("checks.c02:STRUCTURED", {"k": 2, "cut": True, "kinds": ("data", "rstack", "reserved")})
         c.run("checks.c02:BOUND", {})
         c.run("checks.c02:MIXED", {"k": 5})
+        c.run("checks.c02:LONGFRAMES", {})
         c.out_of_bounds += ["free streams longer than 5 bytes (whole) / 4 bytes (all 2^(n-1) partitions); longer inputs only in the structured family (2 segments of valid DATA / RSTACK / reserved byte, one cut; corrupted segments in thorough)",
                             "tracemalloc measurement", "streams longer than the stated bounds"]
     else:
@@ -306,6 +335,7 @@ def main(tier):
         c.run("checks.c02:STRUCTURED", {"k": 3, "cut": True, "kinds": ("data", "rstack", "reserved")}, wall_s=3000)
         c.run("checks.c02:BOUND", {})
         c.run("checks.c02:MIXED", {"k": 6, "items": ["FRAME", "SUB", "CAN", "FLAG", "JUNK", "XON", "ESC"]}, wall_s=3000)
+        c.run("checks.c02:LONGFRAMES", {"lengths": [1, 2, 64, 126, 127, 128, 129, 130, 150, 199, 200]})
         c.out_of_bounds += ["free streams longer than 6 bytes (whole) / 5 bytes (all partitions); structured family 3 segments, one cut", "tracemalloc measurement"]
     return c.finish()
 
